@@ -279,7 +279,8 @@ func (e *Exec) havocPointees(st *BState, args []SV, why string) {
 	if len(keys) == 0 {
 		return
 	}
-	for k, h := range st.heap {
+	for _, k := range sortedHeapKeys(st.heap) {
+		h := st.heap[k]
 		for pre := range keys {
 			if strings.HasPrefix(k, pre) {
 				st.heap[k] = e.havocHeapKey(k, h, why)
@@ -933,7 +934,8 @@ func (e *Exec) havocCalleeFrame(st, pre *BState, f *ssa.Function, args []SV, lab
 			fmt.Fprintf(os.Stderr, "frame of %s: %v\n", label, keys)
 		}
 		preFrontier := e.frontier(st)
-		for k, h := range st.heap {
+		for _, k := range sortedHeapKeys(st.heap) {
+		h := st.heap[k]
 			for pre := range keys {
 				if strings.HasPrefix(k, pre) {
 					st.heap[k] = e.havocHeapKey(k, h, "call."+f.Name()+".")
@@ -961,7 +963,7 @@ func (e *Exec) havocCalleeFrame(st, pre *BState, f *ssa.Function, args []SV, lab
 		// captured variables of the caller that the callee (a literal of the caller) assigns
 		cbCells := map[*ssa.Alloc]bool{}
 		assignedCells(f, map[*ssa.Function]bool{}, cbCells)
-		for a := range cbCells {
+		for _, a := range sortedAllocs(cbCells) {
 			if ownedBy(a, f) {
 				continue // the callee's own locals (a fresh activation), not variables of the caller
 			}
@@ -993,7 +995,7 @@ func (e *Exec) havocCalleeFrame(st, pre *BState, f *ssa.Function, args []SV, lab
 			ghostTypes["$calls."+m] = types.Typ[types.Int]
 		}
 	}
-	for k := range st.ghost {
+	for _, k := range sortedGhostKeys(st.ghost) {
 		if strings.HasPrefix(k, "$calls.") && calleeInvokes[strings.TrimPrefix(k, "$calls.")] {
 			nv := e.fresh("call."+k, SInt)
 			e.assume(le(scal(st.ghost[k]), nv))
